@@ -189,6 +189,21 @@ def exact_points(ctx, ty, dtype):
     return {"same": same, "n": len(rows)}
 
 
+class _MiniCtx:
+    def __init__(self, seed, quick):
+        import random
+        self.rng, self.quick, self.seed = random.Random(seed), quick, seed
+
+
+def _worker(args):
+    import torch
+    ty, dts, seed, quick = args
+    pypose()
+    dtype = torch.float64 if dts == "f64" else torch.float32
+    c = _MiniCtx(seed, quick)
+    return measure_log(c, ty, dtype, 1 if quick else 5) + measure_logexp(c, ty, dtype, 1 if quick else 4), exact_points(c, ty, dtype)
+
+
 def judge(ctx, traces, verdicts):
     for tr, v in zip(traces, verdicts):
         if v != "ok":
@@ -225,9 +240,12 @@ def run(ctx):
             ctx.violation("design/%s" % r["violated"][0], "LieRegimes violates %s" % r["violated"])
     traces = []
     worst = {}
-    for ty in L.TYPES:
-        for dtype in (torch.float64, torch.float32):
-            ev = measure_log(ctx, ty, dtype, 1 if q else 5) + measure_logexp(ctx, ty, dtype, 1 if q else 4)
+    import multiprocessing as mpc
+    jobs = [(ty, dts, ctx.seed * 1000 + 19 * i + j, q) for i, ty in enumerate(L.TYPES) for j, dts in enumerate(("f64", "f32"))]
+    with mpc.get_context("fork").Pool(8) as pool:
+        results = pool.map(_worker, jobs)
+    for (ty, dts, _, _), (ev, xp) in zip(jobs, results):
+        if True:
             for e in ev:
                 ctx.cover("%s:%s:%s:%s:%s:%s:%s" % (e["chk"], ty, e["dt"], e["cell"][0], e["cell"][1], e["eS"], e["eP"]))
                 w = worst.setdefault("%s/%s/%s" % (e["chk"], ty, e["dt"]), {})
@@ -235,14 +253,13 @@ def run(ctx):
                     if k.startswith(("rt_", "err_", "neg_", "inv_", "norm_")) and not (ty == "Sim3" and e["gS"] and e["eS"] < 0):
                         w[k] = max(w.get(k, 0), e[k])
                 traces.append({"cfg": {"spec": "LieRegimesTrace"}, "ev": [e]})
-            xp = exact_points(ctx, ty, dtype)
             ctx.evaluations += xp["n"]
             if not xp["same"]:
                 ctx.violation("exact/%s/log_of_negated_quaternion" % ty, "Log(-q) != Log(q) bitwise on the Hurwitz units with |w| in {1/2, 1}")
     ctx.extra["worst_err_eps_units_outside_sim3_band"] = worst
     ctx.sample(traces[5]["ev"][0])
     ctx.sample(traces[-1]["ev"][0])
-    judge(ctx, traces, ctx.validate("LieRegimesTrace", "LieRegimesTrace.cfg", traces, "log", chunk=4000, parallel=4))
+    judge(ctx, traces, ctx.validate("LieRegimesTrace", "LieRegimesTrace.cfg", traces, "log", chunk=2500, parallel=8))
 
 
 def selftest(ctx):
